@@ -17,11 +17,25 @@
    Independence ("mutating a deep copy or an unpickled copy never affects the original") is a statement about
    aliasing between Python objects; values are trees here, so it is checked on the implementation only
    (harness/props/c14.py mutates every copy through every path and re-snapshots the original): the claim is
-   PARTIAL for that clause.  Equality / byte identity of a pickle round trip is the C01 round trip: taken as a
-   premise in C14_pickle_faithful_partial. *)
+   PARTIAL for that clause.  What the tree model CAN say about a copy and later operations is proved: every
+   operation of the history alphabet (assignment / read through any path, parse into the object, copy, deepcopy,
+   pickle, bytes, len, dump, ==, bool) respects [mat] (C14_step_respects_materialisation), so a copy / deep copy
+   taken at any point of a history behaves under the rest of the history exactly as the original would
+   (C14_copy_commutes, C14_deepcopy_commutes, C14_copy_anywhere ...).
+
+   Pickle = FromString(bytes(m)).  Its faithfulness is the C01 round trip (Properties/C01.v C01_roundtrip, fully
+   proved) plus the other operand order of == (Proofs/C14PickleEq.v): C14_pickle_faithful, under C01's decidable side
+   conditions; also after any observers (C14_pickle_faithful_after_observers), and for messages that carry
+   unknown fields - at the top level (C14_pickle_unknown_fields, with C08's theorems) and at any depth
+   (C14_pickle_unknown_any_depth: the C01 development re-run for a decoded form that keeps unknown bytes, Proofs/C14U*.v).  Outside the side conditions:
+   C14_pickle_oneof_unclean_refuted, C14_pickle_nan_refuted, C14_pickle_map_value_flag_refuted. *)
 From BP Require Import Base.Prelude Model.Types Model.Object Model.Eq Model.Encode Model.Decode Model.WellFormed.
-From BP Require Import Model.History Model.C14Ops Model.Canon.
+From BP Require Import Model.History Model.C14Ops Model.Canon Model.C01Def Model.C14Pickle Model.C14Seq Model.C14UDef.
+From BP Require Model.C08Step.
 From BP Require Import Proofs.C14Mat Proofs.C14Eq Proofs.C14Enc Proofs.C14Obs Proofs.C14Pres Proofs.C14Thm Proofs.C14Refl.
+From BP Require Import Proofs.C01Main Proofs.C14PickleEq Proofs.C14Pickle Proofs.C14PickleUnk Proofs.C14PicklePres Proofs.C14PicklePres2.
+From BP Require Import Proofs.C14UFinal.
+From BP Require Import Proofs.C14Sim1 Proofs.C14Sim2 Proofs.C14Sim3 Proofs.C14Sim4 Proofs.C14Sim5 Proofs.C14Sim6 Proofs.C14Seq Proofs.C14Seq2.
 
 (* ---- the key lemma: a stored default is invisible, field by field ---- *)
 Theorem C14_materialisation_key_lemma : forall sc, wf_schema sc = true -> forall f v v',
@@ -168,7 +182,8 @@ Proof. exact pickle_after_observers. Qed.
 Print Assumptions C14_pickle_after_observers.
 
 (* faithful wherever the binary round trip is (C01, premise [roundtrip] over its own side condition [ok]);
-   missing: the round trip itself (C01), unknown bytes through parse (C08), independence (harness-only) *)
+   missing: the round trip itself (C01), unknown bytes through parse (C08), independence (harness-only).
+   Kept for reference: the premise is discharged in C14_pickle_faithful / C14_pickle_unknown_fields below. *)
 Theorem C14_pickle_faithful_partial : forall sc (ok : obj -> bool),
   (forall o, ok o = true ->
      exists bs o', enc_obj sc o = Ok bs /\ parse sc (ocls o) bs = Ok o' /\
@@ -275,3 +290,448 @@ Proof.
   vm_compute. repeat split; reflexivity.
 Qed.
 Print Assumptions C14_pickle_oneof_unclean_refuted.
+
+(* ================================================================================================== *)
+(* pickle: the premise discharged (C01 round trip), both operand orders of ==, presence, observers     *)
+(* ================================================================================================== *)
+(* Message.__eq__ with the decoded message as the LEFT operand (C01_decoded_equal has it on the right; __eq__ is not
+   symmetric in general: dict comparison walks the left operand) *)
+Theorem C14_decoded_equal_left : forall sc m,
+  c01_schema_ok sc = true -> c01_value_ok sc m = true -> deep nan_free (PMsg m) = true ->
+  obj_eq sc (norm_obj sc m) m = true.
+Proof. exact c01_decoded_equal_r. Qed.
+Print Assumptions C14_decoded_equal_left.
+
+(* Hypotheses (all decidable): c01_schema_ok / c01_value_ok = C01's (Model/C01Def.v: in range, oneof-clean, no unknown
+   bytes, dict keys distinct); enc_small = bytes(m) shorter than 2^64; nan_free only for ==; sow_ok (a selected or
+   non-default sub-message carries its flag) only for the presence report.
+   presence_below .. [] = (True, which_one_of for every group, None-ness / readability of every attribute);
+   child_flag .. i = serialized_on_wire(m.<field i>).  [norm_obj] is compositional, so the statement holds at every
+   nesting depth by instantiating it at the nested message. *)
+Theorem C14_pickle_faithful : forall sc o,
+  c01_schema_ok sc = true -> c01_value_ok sc o = true -> enc_small sc o = true ->
+  exists o', pickle_rt sc o = Ok o' /\ o' = norm_obj sc o /\
+    (deep nan_free (PMsg o) = true -> obj_eq sc o' o = true /\ obj_eq sc o o' = true) /\
+    enc_obj sc o' = enc_obj sc o /\
+    ocls o' = ocls o /\ ounk o' = ounk o /\ osow o' = true /\ ocur o' = ocur o /\
+    (forall g, which_one_of o' g = which_one_of o g) /\
+    (sow_ok sc o = true ->
+     obs_top sc o o' = true /\ presence_below sc o' [] = presence_below sc o [] /\
+     forall i, child_flag sc o' i = child_flag sc o i).
+Proof. exact pickle_faithful_c01. Qed.
+Print Assumptions C14_pickle_faithful.
+
+(* ... and the same for ANY state o2 that reads have left behind (mat_obj o o2: after any observers, after copy,
+   after deepcopy, in any order): pickling o2 gives the very object pickling o gives, and it is equal to o2, has o2's
+   bytes, o2's presence.  Side conditions on the state before the reads. *)
+Theorem C14_pickle_of_materialised : forall sc o o2,
+  c01_schema_ok sc = true -> c01_value_ok sc o = true -> enc_small sc o = true ->
+  mat_obj sc o o2 = true ->
+  exists o', pickle_rt sc o2 = Ok o' /\ pickle_rt sc o = Ok o' /\
+    (deep nan_free (PMsg o) = true -> obj_eq sc o' o2 = true /\ obj_eq sc o2 o' = true) /\
+    enc_obj sc o' = enc_obj sc o2 /\
+    ocls o' = ocls o2 /\ ounk o' = ounk o2 /\ osow o' = true /\ ocur o' = ocur o2 /\
+    (forall g, which_one_of o' g = which_one_of o2 g) /\
+    (sow_ok sc o = true ->
+     presence_below sc o' [] = presence_below sc o2 [] /\ forall i, child_flag sc o' i = child_flag sc o2 i).
+Proof. exact pickle_faithful_of_mat. Qed.
+Print Assumptions C14_pickle_of_materialised.
+
+Theorem C14_pickle_faithful_after_observers : forall sc o bs,
+  c01_schema_ok sc = true -> c01_value_ok sc o = true -> enc_small sc o = true ->
+  exists o', pickle_rt sc (observe_all sc o bs) = Ok o' /\ pickle_rt sc o = Ok o' /\
+    (deep nan_free (PMsg o) = true ->
+     obj_eq sc o' (observe_all sc o bs) = true /\ obj_eq sc (observe_all sc o bs) o' = true) /\
+    enc_obj sc o' = enc_obj sc (observe_all sc o bs) /\
+    ocls o' = ocls (observe_all sc o bs) /\ ounk o' = ounk (observe_all sc o bs) /\ osow o' = true /\
+    ocur o' = ocur (observe_all sc o bs) /\
+    (forall g, which_one_of o' g = which_one_of (observe_all sc o bs) g) /\
+    (sow_ok sc o = true ->
+     presence_below sc o' [] = presence_below sc (observe_all sc o bs) [] /\
+     forall i, child_flag sc o' i = child_flag sc (observe_all sc o bs) i).
+Proof. exact pickle_faithful_after_observers. Qed.
+Print Assumptions C14_pickle_faithful_after_observers.
+
+(* ---- presence at EVERY path (through singular fields, list elements, map values, to any depth): the same
+        serialized_on_wire / which_one_of / None-ness at every reachable message, the flag of the top-level message
+        excepted (always raised after unpickling).  Side conditions, decidable, at every depth: sow_ok (C01) and
+        flags_ok (Model/C14Pickle.v: nested messages carry their flag unless they are fresh instances; a flagged map
+        value does not encode to nothing - see C14_pickle_map_value_flag_refuted).  For any state o2 reads left behind. ---- *)
+Theorem C14_pickle_presence_everywhere : forall sc o o2,
+  c01_schema_ok sc = true -> c01_value_ok sc o = true -> enc_small sc o = true ->
+  deep (sow_ok sc) (PMsg o) = true -> deep (flags_ok sc) (PMsg o) = true ->
+  mat_obj sc o o2 = true ->
+  exists o', pickle_rt sc o2 = Ok o' /\ forall p, presence_below sc o' p = presence_below sc o2 p.
+Proof. exact pickle_presence_everywhere_of_mat. Qed.
+Print Assumptions C14_pickle_presence_everywhere.
+
+(* the decoded form itself, without the size hypothesis *)
+Theorem C14_decoded_presence_everywhere : forall sc o,
+  c01_schema_ok sc = true -> c01_value_ok sc o = true ->
+  deep (sow_ok sc) (PMsg o) = true -> deep (flags_ok sc) (PMsg o) = true ->
+  forall p, presence_below sc (norm_obj sc o) p = presence_below sc o p.
+Proof. intros sc o Hs Hv. apply c01_value_ok_spec in Hv. exact (presence_everywhere sc Hs o Hv). Qed.
+Print Assumptions C14_decoded_presence_everywhere.
+
+(* ---- messages that carry unknown fields (excluded by c01_value_ok): _unknown_fields of the top-level message is any
+        concatenation of complete records its class keeps verbatim (unk_records_ok: exactly what Message.parse leaves
+        there, C08_raw_preserved); everything else is C01's domain.  The unpickled message holds the same unknown
+        bytes, encodes to the same bytes, is == in both orders, reports the same presence.
+        Unknown bytes inside NESTED messages: C14_pickle_unknown_any_depth below. ---- *)
+Theorem C14_pickle_unknown_fields : forall sc o,
+  c01_schema_ok sc = true -> c01_value_ok sc (C08Step.clear_unk o) = true -> unk_records_ok sc o = true ->
+  enc_small sc o = true ->
+  exists o', pickle_rt sc o = Ok o' /\ o' = C08Step.set_unk (norm_obj sc (C08Step.clear_unk o)) (ounk o) /\
+    (deep nan_free (PMsg o) = true -> obj_eq sc o' o = true /\ obj_eq sc o o' = true) /\
+    enc_obj sc o' = enc_obj sc o /\
+    ocls o' = ocls o /\ ounk o' = ounk o /\ osow o' = true /\ ocur o' = ocur o /\
+    (forall g, which_one_of o' g = which_one_of o g) /\
+    (sow_ok sc o = true ->
+     obs_top sc o o' = true /\ presence_below sc o' [] = presence_below sc o [] /\
+     forall i, child_flag sc o' i = child_flag sc o i).
+Proof. exact pickle_faithful_unknown. Qed.
+Print Assumptions C14_pickle_unknown_fields.
+
+Theorem C14_pickle_unknown_bytes : forall sc o,
+  c01_schema_ok sc = true -> c01_value_ok sc (C08Step.clear_unk o) = true -> unk_records_ok sc o = true ->
+  enc_small sc o = true ->
+  exists o', pickle_rt sc o = Ok o' /\ enc_obj sc o' = enc_obj sc o /\ ounk o' = ounk o.
+Proof. exact pickle_unknown_bytes. Qed.
+Print Assumptions C14_pickle_unknown_bytes.
+
+Theorem C14_pickle_unknown_of_materialised : forall sc o o2,
+  c01_schema_ok sc = true -> c01_value_ok sc (C08Step.clear_unk o) = true -> unk_records_ok sc o = true ->
+  enc_small sc o = true -> mat_obj sc o o2 = true ->
+  exists o', pickle_rt sc o2 = Ok o' /\ pickle_rt sc o = Ok o' /\
+    (deep nan_free (PMsg o) = true -> obj_eq sc o' o2 = true /\ obj_eq sc o2 o' = true) /\
+    enc_obj sc o' = enc_obj sc o2 /\
+    ocls o' = ocls o2 /\ ounk o' = ounk o2 /\ osow o' = true /\ ocur o' = ocur o2 /\
+    (forall g, which_one_of o' g = which_one_of o2 g) /\
+    (sow_ok sc o = true ->
+     presence_below sc o' [] = presence_below sc o2 [] /\ forall i, child_flag sc o' i = child_flag sc o2 i).
+Proof. exact pickle_unknown_of_mat. Qed.
+Print Assumptions C14_pickle_unknown_of_materialised.
+
+Theorem C14_pickle_unknown_presence_everywhere : forall sc o o2,
+  c01_schema_ok sc = true -> c01_value_ok sc (C08Step.clear_unk o) = true -> unk_records_ok sc o = true ->
+  enc_small sc o = true ->
+  deep (sow_ok sc) (PMsg o) = true -> deep (flags_ok sc) (PMsg o) = true ->
+  mat_obj sc o o2 = true ->
+  exists o', pickle_rt sc o2 = Ok o' /\ forall p, presence_below sc o' p = presence_below sc o2 p.
+Proof. exact pickle_unknown_presence_everywhere. Qed.
+Print Assumptions C14_pickle_unknown_presence_everywhere.
+
+(* ---- the pickle clause of the property in ONE statement.  pickle_pre (Model/C14Pickle.v) = c01_schema_ok, c01_value_ok
+        of the message without its top-level unknown bytes, unk_records_ok, enc_small - evaluated by the check on every
+        generated pickle case.  o: the state the side conditions are evaluated on; o2: ANY state reads have left behind
+        (o itself, o after any observers, a copy / deep copy of either).  The unpickled message has the bytes of o2
+        (unknown fields included), holds the same unknown bytes, selects the same oneof members; it is == o2 in both
+        operand orders when no NaN sits in a container; it reports the presence of o2 at the top level (under sow_ok)
+        and at EVERY path (under sow_ok and flags_ok at every depth).
+        Unknown bytes inside nested messages: C14_pickle_unknown_any_depth.  Missing: independence (aliasing: harness only). ---- *)
+Theorem C14_pickle : forall sc o o2,
+  pickle_pre sc o = true -> mat_obj sc o o2 = true ->
+  exists o', pickle_rt sc o2 = Ok o' /\
+    enc_obj sc o' = enc_obj sc o2 /\ ounk o' = ounk o2 /\ ocls o' = ocls o2 /\ osow o' = true /\
+    (forall g, which_one_of o' g = which_one_of o2 g) /\
+    (deep nan_free (PMsg o) = true -> obj_eq sc o' o2 = true /\ obj_eq sc o2 o' = true) /\
+    (sow_ok sc o = true ->
+     presence_below sc o' [] = presence_below sc o2 [] /\ forall i, child_flag sc o' i = child_flag sc o2 i) /\
+    (deep (sow_ok sc) (PMsg o) = true -> deep (flags_ok sc) (PMsg o) = true ->
+     forall p, presence_below sc o' p = presence_below sc o2 p).
+Proof. exact pickle_summary. Qed.
+Print Assumptions C14_pickle.
+
+(* ---- unknown fields at ANY depth.  pickle_pre_u (Model/C14UDef.v) = c01_schema_ok, enc_small and c14u_value_ok, which is
+        c01_value_ok with "no unknown bytes" replaced, at every nesting depth, by unk_records_ok (the unknown bytes are
+        complete records the class keeps verbatim: what Message.parse leaves there).  The unpickled message is
+        normu_obj o: C01's decoded form in which EVERY message keeps its _unknown_fields.  Proof: the C01 development
+        re-run for normu_obj (Proofs/C14U*.v), the unknown records of each message fed to the decoder by C08's
+        known_undisturbed_conv.  Subsumes C14_pickle (same conclusions). ---- *)
+Theorem C14_pickle_unknown_any_depth : forall sc o o2,
+  pickle_pre_u sc o = true -> mat_obj sc o o2 = true ->
+  exists o', pickle_rt sc o2 = Ok o' /\ o' = normu_obj sc o /\
+    enc_obj sc o' = enc_obj sc o2 /\ ounk o' = ounk o2 /\ ocls o' = ocls o2 /\ osow o' = true /\
+    (forall g, which_one_of o' g = which_one_of o2 g) /\
+    (deep nan_free (PMsg o) = true -> obj_eq sc o' o2 = true /\ obj_eq sc o2 o' = true) /\
+    (sow_ok sc o = true ->
+     presence_below sc o' [] = presence_below sc o2 [] /\ forall i, child_flag sc o' i = child_flag sc o2 i) /\
+    (deep (sow_ok sc) (PMsg o) = true -> deep (flags_ok sc) (PMsg o) = true ->
+     forall p, presence_below sc o' p = presence_below sc o2 p).
+Proof. exact pickle_summary_u. Qed.
+Print Assumptions C14_pickle_unknown_any_depth.
+
+(* the decoder on the bytes of such a message, and the bytes of what it returns *)
+Theorem C14_roundtrip_unknown_any_depth : forall sc m,
+  c01_schema_ok sc = true -> c14u_value_ok sc m = true ->
+  exists bs, enc_obj sc m = Ok bs /\
+    (Zlength bs < 2 ^ 64 -> parse sc (ocls m) bs = Ok (normu_obj sc m)) /\
+    enc_obj sc (normu_obj sc m) = Ok bs.
+Proof.
+  intros sc m Hs Hv. destruct (C14UMain.c14u_decode_is_norm sc m Hs Hv) as (bs & Eb & Hp).
+  exists bs. split; [exact Eb|]. split; [exact Hp|]. rewrite (C14UStable.c14u_reencode_stable sc m Hs Hv). exact Eb.
+Qed.
+Print Assumptions C14_roundtrip_unknown_any_depth.
+
+(* parsing `body ++ unknown records` = parsing body, then holding the records verbatim (the C08 fact used) *)
+Theorem C14_parse_with_unknown_suffix : forall sc c body u n,
+  parse sc c body = Ok n -> ounk n = [] ->
+  match C08Step.frames (S (length u)) u with
+  | Some ps => forallb (C08Step.is_unknown (get_class sc c)) ps
+  | None => false
+  end = true ->
+  parse sc c (body ++ u) = Ok (C08Step.set_unk n u).
+Proof. exact parse_with_unknown. Qed.
+Print Assumptions C14_parse_with_unknown_suffix.
+
+(* ================================================================================================== *)
+(* copies and the rest of the history                                                                  *)
+(* ================================================================================================== *)
+(* res_obj_rel r r' (Proofs/C14Sim1.v): both are the same error, or both are states, related by [mat];
+   out_rel: same bytes / length / boolean, same error, read values related by [mat];
+   step_rel: both raise the same error, or both return, states related by [mat], outputs by out_rel *)
+Theorem C14_step_respects_materialisation : forall sc, wf_schema sc = true -> forall o o' p,
+  mat_obj sc o o' = true -> step_rel sc (History.step sc o p) (History.step sc o' p).
+Proof. exact step_respects_mat. Qed.
+Print Assumptions C14_step_respects_materialisation.
+
+Theorem C14_history_respects_materialisation : forall sc, wf_schema sc = true -> forall ops o o',
+  mat_obj sc o o' = true -> res_obj_rel sc (History.run sc o ops) (History.run sc o' ops).
+Proof. exact run_respects_mat. Qed.
+Print Assumptions C14_history_respects_materialisation.
+
+(* the pieces, each monotone for [mat] (no shape hypothesis) *)
+Theorem C14_copy_monotone : forall sc, schema_opt_ok sc = true -> forall o o',
+  mat_obj sc o o' = true -> mat_obj sc (copy sc o) (copy sc o') = true.
+Proof. exact copy_mono. Qed.
+Print Assumptions C14_copy_monotone.
+
+Theorem C14_deepcopy_monotone : forall sc, schema_opt_ok sc = true -> forall o o',
+  mat_obj sc o o' = true -> mat_obj sc (deepcopy sc o) (deepcopy sc o') = true.
+Proof. exact deepcopy_mono. Qed.
+Print Assumptions C14_deepcopy_monotone.
+
+Theorem C14_bytes_walk_monotone : forall sc, schema_opt_ok sc = true -> forall o o',
+  mat_obj sc o o' = true -> mat_obj sc (History.touch sc o) (History.touch sc o') = true.
+Proof. exact touch_mono. Qed.
+Print Assumptions C14_bytes_walk_monotone.
+
+Theorem C14_parse_into_respects_materialisation : forall sc o o' bs,
+  mat_obj sc o o' = true -> res_obj_rel sc (parse_into sc o bs) (parse_into sc o' bs).
+Proof. exact parse_into_sim. Qed.
+Print Assumptions C14_parse_into_respects_materialisation.
+
+Theorem C14_setattr_path_respects_materialisation : forall sc path o o' i v,
+  mat_obj sc o o' = true -> res_obj_rel sc (set_in sc o path i v) (set_in sc o' path i v).
+Proof. exact set_in_sim. Qed.
+Print Assumptions C14_setattr_path_respects_materialisation.
+
+(* hist_rel: both histories raise the same error, or both end, in states related by [mat] and therefore
+   indistinguishable (bytes, == against everything in both positions, bool, presence at every path, unknown bytes) *)
+Theorem C14_copy_commutes : forall sc (Hwf : wf_schema sc = true) o ops,
+  shaped_top sc o = true -> hist_rel sc (History.run sc o ops) (History.run sc (copy sc o) ops).
+Proof. exact copy_commutes. Qed.
+Print Assumptions C14_copy_commutes.
+
+Theorem C14_deepcopy_commutes : forall sc (Hwf : wf_schema sc = true) o ops,
+  shaped_obj sc o = true -> hist_rel sc (History.run sc o ops) (History.run sc (deepcopy sc o) ops).
+Proof. exact deepcopy_commutes. Qed.
+Print Assumptions C14_deepcopy_commutes.
+
+Theorem C14_copy_step_commutes : forall sc, wf_schema sc = true -> forall o p,
+  shaped_top sc o = true -> step_rel sc (History.step sc o p) (History.step sc (copy sc o) p).
+Proof. exact copy_step_commutes. Qed.
+Print Assumptions C14_copy_step_commutes.
+
+Theorem C14_deepcopy_step_commutes : forall sc, wf_schema sc = true -> forall o p,
+  shaped_obj sc o = true -> step_rel sc (History.step sc o p) (History.step sc (deepcopy sc o) p).
+Proof. exact deepcopy_step_commutes. Qed.
+Print Assumptions C14_deepcopy_step_commutes.
+
+Theorem C14_copy_after_observers_commutes : forall sc (Hwf : wf_schema sc = true) o bs ops,
+  shaped_top sc (observe_all sc o bs) = true ->
+  hist_rel sc (History.run sc o ops) (History.run sc (copy sc (observe_all sc o bs)) ops).
+Proof. exact copy_after_observers_commutes. Qed.
+Print Assumptions C14_copy_after_observers_commutes.
+
+Theorem C14_deepcopy_after_observers_commutes : forall sc (Hwf : wf_schema sc = true) o bs ops,
+  shaped_obj sc (observe_all sc o bs) = true ->
+  hist_rel sc (History.run sc o ops) (History.run sc (deepcopy sc (observe_all sc o bs)) ops).
+Proof. exact deepcopy_after_observers_commutes. Qed.
+Print Assumptions C14_deepcopy_after_observers_commutes.
+
+(* a copy / deepcopy / observer sequence taken at ANY point of a history is invisible to the rest of it *)
+Theorem C14_copy_anywhere : forall sc (Hwf : wf_schema sc = true) o ops1 o1 ops2,
+  History.run sc o ops1 = Ok o1 -> shaped_top sc o1 = true ->
+  hist_rel sc (History.run sc o (ops1 ++ ops2)) (History.run sc o (ops1 ++ OCopy :: ops2)).
+Proof. exact copy_anywhere. Qed.
+Print Assumptions C14_copy_anywhere.
+
+Theorem C14_deepcopy_anywhere : forall sc (Hwf : wf_schema sc = true) o ops1 o1 ops2,
+  History.run sc o ops1 = Ok o1 -> shaped_obj sc o1 = true ->
+  hist_rel sc (History.run sc o (ops1 ++ ops2)) (History.run sc o (ops1 ++ ODeepcopy :: ops2)).
+Proof. exact deepcopy_anywhere. Qed.
+Print Assumptions C14_deepcopy_anywhere.
+
+Theorem C14_observers_anywhere : forall sc (Hwf : wf_schema sc = true) o ops1 o1 bs ops2,
+  History.run sc o ops1 = Ok o1 ->
+  hist_rel sc (History.run sc o (ops1 ++ ops2))
+              (do o2 <- History.run sc o ops1; History.run sc (observe_all sc o2 bs) ops2).
+Proof. exact observers_anywhere. Qed.
+Print Assumptions C14_observers_anywhere.
+
+(* ================================================================================================== *)
+(* "in any order": any interleaving of observers, copy and deepcopy, then pickle                        *)
+(* ================================================================================================== *)
+(* cops_shaped (Model/C14Seq.v, decidable): at each point where a copy / deepcopy is taken the object has one raw
+   attribute per declared field (recursively for deepcopy) - true of every Python object *)
+Theorem C14_observers_and_copies_any_order : forall sc, wf_schema sc = true -> forall l o,
+  cops_shaped sc o l = true ->
+  mat_obj sc o (apply_cops sc o l) = true /\
+  (enc_obj sc (apply_cops sc o l) = enc_obj sc o /\
+   (forall x, obj_eq sc (apply_cops sc o l) x = obj_eq sc o x /\ obj_eq sc x (apply_cops sc o l) = obj_eq sc x o) /\
+   obj_bool sc (apply_cops sc o l) = obj_bool sc o /\
+   (forall p, presence_at sc (apply_cops sc o l) p = presence_at sc o p) /\
+   ounk (apply_cops sc o l) = ounk o /\ ocls (apply_cops sc o l) = ocls o) /\
+  osow (apply_cops sc o l) = osow o /\ ocur (apply_cops sc o l) = ocur o.
+Proof. intros sc Hwf l o H. split; [apply cops_mat; assumption | apply cops_indistinguishable; assumption]. Qed.
+Print Assumptions C14_observers_and_copies_any_order.
+
+Theorem C14_pickle_after_any_order : forall sc o l,
+  pickle_pre sc o = true -> cops_shaped sc o l = true ->
+  exists o', pickle_rt sc (apply_cops sc o l) = Ok o' /\
+    enc_obj sc o' = enc_obj sc (apply_cops sc o l) /\ ounk o' = ounk (apply_cops sc o l) /\
+    ocls o' = ocls (apply_cops sc o l) /\ osow o' = true /\
+    (forall g, which_one_of o' g = which_one_of (apply_cops sc o l) g) /\
+    (deep nan_free (PMsg o) = true -> obj_eq sc o' (apply_cops sc o l) = true /\ obj_eq sc (apply_cops sc o l) o' = true) /\
+    (sow_ok sc o = true ->
+     presence_below sc o' [] = presence_below sc (apply_cops sc o l) [] /\
+     forall i, child_flag sc o' i = child_flag sc (apply_cops sc o l) i) /\
+    (deep (sow_ok sc) (PMsg o) = true -> deep (flags_ok sc) (PMsg o) = true ->
+     forall p, presence_below sc o' p = presence_below sc (apply_cops sc o l) p).
+Proof. exact pickle_after_any_order. Qed.
+Print Assumptions C14_pickle_after_any_order.
+
+(* ---- every observer of Model/C14Ops.v (to_dict / to_json / to_pydict included) respects [mat]: observing a copy and
+        observing the original leave related states ---- *)
+Theorem C14_observer_respects_materialisation : forall sc, schema_opt_ok sc = true -> forall o o' b,
+  mat_obj sc o o' = true -> mat_obj sc (observe sc o b) (observe sc o' b) = true.
+Proof. exact observe_mono. Qed.
+Print Assumptions C14_observer_respects_materialisation.
+
+Theorem C14_observers_respect_materialisation : forall sc, schema_opt_ok sc = true -> forall bs o o',
+  mat_obj sc o o' = true -> mat_obj sc (observe_all sc o bs) (observe_all sc o' bs) = true.
+Proof. exact observe_all_mono. Qed.
+Print Assumptions C14_observers_respect_materialisation.
+
+(* ---- several pickles in one sequence: the unpickled message o' is a fixed point of pickling, and so is every state
+        reads / copies leave behind from it: each later pickle returns o' itself.  eq_refl_ok (Model/C14Ops.v): == is
+        reflexive on o' (no NaN inside a container, dict keys pairwise unequal) ---- *)
+Theorem C14_pickle_fixed_point : forall sc o o',
+  pickle_pre sc o = true -> pickle_rt sc o = Ok o' ->
+  pickle_rt sc o' = Ok o' /\
+  forall o2, mat_obj sc o' o2 = true ->
+    pickle_rt sc o2 = Ok o' /\ enc_obj sc o2 = enc_obj sc o' /\ ounk o2 = ounk o' /\
+    (forall p, presence_at sc o2 p = presence_at sc o' p) /\
+    (eq_refl_ok sc (PMsg o') = true -> obj_eq sc o' o2 = true /\ obj_eq sc o2 o' = true).
+Proof. exact pickle_fixed_point. Qed.
+Print Assumptions C14_pickle_fixed_point.
+
+(* ================================================================================================== *)
+(* witnesses for the new statements                                                                    *)
+(* ================================================================================================== *)
+(* ex_obj carries unknown bytes (field 99, varint): every hypothesis of C14_pickle_unknown_fields holds, the object
+   is not trivial, the unpickled message holds the unknown bytes; without them C14_pickle_faithful applies *)
+Example C14_pickle_nonvacuous :
+  c01_schema_ok ex_schema = true /\ c01_value_ok ex_schema (C08Step.clear_unk ex_obj) = true /\
+  unk_records_ok ex_schema ex_obj = true /\ enc_small ex_schema ex_obj = true /\
+  enc_small ex_schema (C08Step.clear_unk ex_obj) = true /\
+  deep nan_free (PMsg ex_obj) = true /\ sow_ok ex_schema ex_obj = true /\ c01_value_ok ex_schema ex_obj = false /\
+  deep (sow_ok ex_schema) (PMsg ex_obj) = true /\ deep (flags_ok ex_schema) (PMsg ex_obj) = true /\
+  pickle_pre ex_schema ex_obj = true /\ pickle_pre_eq ex_schema ex_obj = true /\ pickle_pre_deep ex_schema ex_obj = true /\
+  match pickle_rt ex_schema (observe_all ex_schema ex_obj ex_observers) with
+  | Ok o' => ounk o' = [x98; x06; x01] /\ obj_eq ex_schema o' ex_obj = true /\
+             enc_obj ex_schema o' = Ok [x22; x00; x2a; x02; x08; x02; x32; x03; x0a; x01; x6b; x98; x06; x01] /\
+             cv_eqb (cv_of_obj o') (cv_of_obj (observe_all ex_schema ex_obj ex_observers)) = false
+  | Err _ => False
+  end.
+Proof. vm_compute. repeat split; reflexivity. Qed.
+
+(* a history with an assignment through a path, a read, parse into the object, a comparison: run on ex_obj and on the
+   copy of the observed ex_obj it ends in two different raw states, related by mat *)
+Definition ex_ops : list op :=
+  [OSet [1%nat; 1%nat] 0%nat (PInt 5); OGet [4%nat] 0%nat; OParse [x38; x07; x98; x06; x02]; OEq ex_obj; OBool].
+Example C14_commute_nonvacuous :
+  shaped_top ex_schema (observe_all ex_schema ex_obj ex_observers) = true /\
+  match History.run ex_schema ex_obj ex_ops,
+        History.run ex_schema (copy ex_schema (observe_all ex_schema ex_obj ex_observers)) ex_ops with
+  | Ok a, Ok b => cv_eqb (cv_of_obj a) (cv_of_obj b) = false /\ mat_obj ex_schema a b = true /\
+                  cv_eqb (cv_of_obj a) (cv_of_obj ex_obj) = false
+  | _, _ => False
+  end.
+Proof. vm_compute. repeat split; reflexivity. Qed.
+
+(* Holder(inner=Inner(x=1) carrying an unknown record, r=[Inner(x=2) carrying another], mm={"k": Inner() with unknown bytes
+   only}) itself carrying an unknown record: unknown bytes at four places, three of them nested *)
+Definition ex_deep_unknown : obj :=
+  Obj 13 [PPlaceholder;
+          PMsg (Obj 11 [PInt 1; PPlaceholder; PNone] true [xa0; x06; x07] []);
+          PPlaceholder; PPlaceholder;
+          PList [PMsg (Obj 11 [PInt 2; PPlaceholder; PNone] true [x9d; x06; x01; x02; x03; x04] [])];
+          PDict [(PStr [x6b], PMsg (Obj 11 [PPlaceholder; PPlaceholder; PNone] true [xa0; x06; x09] []))];
+          PPlaceholder; PNone] true [x98; x06; x01] [None].
+Example C14_deep_unknown_nonvacuous :
+  pickle_pre_u ex_schema ex_deep_unknown = true /\ pickle_pre_u_deep ex_schema ex_deep_unknown = true /\
+  pickle_pre ex_schema ex_deep_unknown = false /\
+  deep nan_free (PMsg ex_deep_unknown) = true /\
+  deep (sow_ok ex_schema) (PMsg ex_deep_unknown) = true /\ deep (flags_ok ex_schema) (PMsg ex_deep_unknown) = true /\
+  pickle_rt ex_schema ex_deep_unknown = Ok (normu_obj ex_schema ex_deep_unknown) /\
+  match pickle_rt ex_schema ex_deep_unknown with
+  | Ok o' => presence_at ex_schema o' [SValue 5%nat 0%nat] = Some (true, [], [2; 2; 1]%nat) /\
+             match nav ex_schema o' [SValue 5%nat 0%nat], nav ex_schema o' [SItem 4%nat 0%nat], nav ex_schema o' [SField 1%nat] with
+             | Some a, Some b, Some c => ounk a = [xa0; x06; x09] /\ ounk b = [x9d; x06; x01; x02; x03; x04] /\ ounk c = [xa0; x06; x07]
+             | _, _, _ => False
+             end
+  | Err _ => False
+  end.
+Proof. vm_compute. repeat split; reflexivity. Qed.
+
+Definition ex_cops : list cop :=
+  [CObserve (BGet [1%nat; 1%nat] 0%nat); CCopy; CObserve BBytes; CDeepcopy; CObserve (BToDict 5 false); CCopy; CObserve BLen].
+Example C14_any_order_nonvacuous :
+  cops_shaped ex_schema ex_obj ex_cops = true /\
+  cv_eqb (cv_of_obj (apply_cops ex_schema ex_obj ex_cops)) (cv_of_obj ex_obj) = false.
+Proof. vm_compute. split; reflexivity. Qed.
+
+(* ---- outside the side conditions ---- *)
+(* K7: a NaN inside a repeated field: the unpickled message has the same bytes but is not == *)
+Theorem C14_pickle_nan_refuted :
+  exists sc o, c01_schema_ok sc = true /\ c01_value_ok sc o = true /\ enc_small sc o = true /\
+    deep nan_free (PMsg o) = false /\
+    match pickle_rt sc o with
+    | Ok o' => obj_eq sc o' o = false /\ obj_eq sc o o' = false /\ enc_obj sc o' = enc_obj sc o
+    | Err _ => False
+    end.
+Proof. exists k7_schema, k7_obj. vm_compute. repeat split; reflexivity. Qed.
+Print Assumptions C14_pickle_nan_refuted.
+
+(* why flags_ok (C14_pickle_presence_everywhere) asks that a flagged map value does not encode to nothing: such a value
+   is not put on the wire, so its serialized_on_wire flag (True after Holder.parse of an entry with an empty value)
+   comes back False; everything else about the message survives *)
+Theorem C14_pickle_map_value_flag_refuted :
+  exists sc o, c01_schema_ok sc = true /\ c01_value_ok sc o = true /\ enc_small sc o = true /\
+    deep nan_free (PMsg o) = true /\ deep (sow_ok sc) (PMsg o) = true /\
+    match pickle_rt sc o with
+    | Ok o' => presence_at sc o [SValue 5%nat 0%nat] = Some (true, [], [2; 2; 1]%nat) /\
+               presence_at sc o' [SValue 5%nat 0%nat] = Some (false, [], [2; 2; 1]%nat) /\
+               obj_eq sc o' o = true /\ enc_obj sc o' = enc_obj sc o
+    | Err _ => False
+    end.
+Proof.
+  exists ex_schema,
+    (Obj 13 [PPlaceholder; PPlaceholder; PPlaceholder; PPlaceholder; PPlaceholder;
+             PDict [(PStr [x6b], PMsg (Obj 11 [PPlaceholder; PPlaceholder; PNone] true [] []))];
+             PPlaceholder; PNone] true [] [None]).
+  vm_compute. repeat split; reflexivity.
+Qed.
+Print Assumptions C14_pickle_map_value_flag_refuted.
